@@ -271,7 +271,8 @@ def _wrappers(ctx, R, roles, T):
     arg = ctx.cg.site(dc).bind(dev["_read_until_close"]).get("adb_info")
     df = ctx.df(f)
     d = df.unique_def(dn, varkey(unawait(arg))) if arg is not None and varkey(unawait(arg)) else None
-    R.check(d is not None and d.node is on, "TERM-wrap", f.qualname + "|drains-own", "drains the stream it opened", "_streaming_command drains a different stream than the one it opened", f.loc(dn.ast))
+    own = (d is not None and d.node is on) or (arg is not None and unawait(arg) is oc) or (arg is not None and T.term(f, dn, arg) == T.term(f, on, oc))
+    R.check(own, "TERM-wrap", f.qualname + "|drains-own", "drains the stream it opened", "_streaming_command drains a different stream than the one it opened", f.loc(dn.ast))
     ok = len(ys) == 1
     if ok:
         yn, yx = ys[0]
